@@ -19,8 +19,6 @@ import (
 //	    Seek(pos0, SeekStart); caller A: WriteAt(pA, oA); caller B's call runs while A is blocked inside
 //	    the mock's WriteAt (or after A returned, when A never reaches the mock)
 //	    obs: [[A's return values, A's underlying calls], [B's return values, B's underlying calls]]
-const c18CkMod = 1000000007
-
 type c18Seg struct {
 	off, n int64
 	ck     int64
@@ -53,7 +51,7 @@ func (m *c18PF) WriteAt(p []byte, off int64) (int, error) {
 		s := &m.segs[k-1]
 		for _, b := range p[:n] {
 			s.n++
-			s.ck = (s.ck + s.n*int64(b)) % c18CkMod
+			s.ck += s.n * int64(b)
 		}
 	}
 	return n, err
@@ -190,15 +188,14 @@ func genC18Big(g *Gen) {
 		l := int64(MiB) + k
 		off := int64([]int64{0, 16, 5}[i])
 		pre := int64([]int64{7, 0, 3}[i])
-		bigs = append(bigs,
-			big{off, maxI - off, pre, l, off + pre + MiB + k/2, "f2/open"}, // fails in the part beyond 1 MiB
-		)
 		if i == 0 || g.Thorough {
 			bigs = append(bigs,
-				big{off, maxI - off, pre, l, -1, "ok/open"},
+				big{off, maxI - off, pre, l, off + pre + MiB + k/2, "f2/open"}, // fails in the part beyond 1 MiB
 				big{off, pre + l - 5, pre, l, off + pre + MiB + 1, "f2/trunc"},
-				big{off, pre + l, pre, l, off + pre + 1000, "f1/exact"},
 			)
+		}
+		if g.Thorough {
+			bigs = append(bigs, big{off, maxI - off, pre, l, -1, "ok/open"}, big{off, pre + l, pre, l, off + pre + 1000, "f1/exact"})
 		}
 	}
 	if g.Thorough {
